@@ -122,6 +122,30 @@ pub fn s_life(name: &str, two_parts: bool, extra: bool, retry: bool) -> WCfg {
     c
 }
 
+/// S-park: two HTLCs that each fund the same invoice on their own, nothing else going wrong — except that one
+/// task may stay suspended at a preemption point while the others, the node and the clock go through up to a
+/// dozen further events (a whole payment).
+pub fn s_park(two_parts: bool) -> WCfg {
+    let mut c = base(if two_parts { "S-park/2htlc+dup" } else { "S-park/dup" });
+    if two_parts {
+        c.add_htlc("a1", 0, 600_000, 1_005_000);
+        c.add_htlc("a2", 0, 405_000, 1_005_000);
+    } else {
+        c.add_htlc("a", 0, 1_005_000, 1_005_000);
+    }
+    c.add_htlc("b", 0, 1_005_000, 1_005_000);
+    c.max_parts = 1;
+    c.fail_codes = vec![];
+    c.max_crashes = 0;
+    c.write_faults = false;
+    c.max_faults = 0;
+    c.max_advances = 1;
+    c.max_stalls = 0;
+    c.max_parks = 1;
+    c.park_span = 12;
+    c
+}
+
 pub fn with_props(mut c: WCfg, ps: &[&'static str]) -> Arc<WCfg> {
     props(&mut c, ps);
     if let Some(n) = std::env::var("VERIF_PARKS").ok().and_then(|v| v.parse().ok()) {
